@@ -120,14 +120,15 @@ def killed_from_outside(e):
 
 KEY_VARIANTS = ["%s", "%s", "%s\u00e9", "q\"%s", "%s\\b", "\u043a\u043b%s", "%s\tt", "\U0001F600%s", "%s sp", "%s/s", "%s-x_y"]
 
-# compatible path sets for the abstract columns c1..c4 (ints = array indices).  No path is a prefix of another.
+# compatible path sets for the abstract columns c1..c6 (ints = array indices; class tables with four columns use
+# the first four).  No path is a prefix of another.
 PATH_SETS = [
-    [["a"], ["b"], ["c"], ["d"]],                                                     # depth 0
-    [["n", "k"], ["n", "m"], ["c"], ["o", "p", "q"]],                                 # depth 1-2
-    [["d1", "d2", "d3", "v"], ["d1", "d2", "w"], ["d1", "u"], ["t"]],                 # depth 3
-    [["arr", 0], ["arr", 1], ["arr", 2], ["s"]],                                      # heterogeneous array
-    [["o", "l", 0, "z"], ["o", "l", 1, "z"], ["o", "m"], ["mat", 0, 1]],              # objects in arrays, nested arrays
-    [["n", "k", 0], ["n", "k", 1, "z"], ["n", "j"], ["n", "k", 2, 0]],                # like n.k.0 / n.k.2.0
+    [["a"], ["b"], ["c"], ["d"], ["e"], ["f"]],                                                        # depth 0
+    [["n", "k"], ["n", "m"], ["c"], ["o", "p", "q"], ["n", "r"], ["o", "p", "s"]],                     # depth 1-2
+    [["d1", "d2", "d3", "v"], ["d1", "d2", "w"], ["d1", "u"], ["t"], ["d1", "d2", "d3", "y"], ["z9"]],  # depth 3
+    [["arr", 0], ["arr", 1], ["arr", 2], ["s"], ["arr", 3], ["r", "e"]],                               # heterogeneous array
+    [["o", "l", 0, "z"], ["o", "l", 1, "z"], ["o", "m"], ["mat", 0, 1], ["o", "l", 2, "z"], ["mat", 1, 0]],  # objects in arrays
+    [["n", "k", 0], ["n", "k", 1, "z"], ["n", "j"], ["n", "k", 2, 0], ["n", "k", 3], ["n", "i", "h"]],  # like n.k.0 / n.k.2.0
 ]
 
 INT_POOL = [0, 1, -1, 7, 127, 128, 255, 256, -128, -129, 32767, 32768, 65535, 65536, 2 ** 31 - 1, 2 ** 31, -2 ** 31,
@@ -241,9 +242,10 @@ class Concretiser:
         self.beh, self.profile = beh, profile
         self.kinds = beh["kinds"]
         streams = sorted(beh["steps"][0]["obs"].keys())
+        self.cols = sorted(next(iter(self.kinds.values())).keys())       # c1..c4 or c1..c6
         self.colmap, self.abs_of = {}, {}
         for s in streams:
-            ps = self.rnd.choice(PATH_SETS)
+            ps = self.rnd.choice(PATH_SETS)[:len(self.cols)]
             ren = {}
             paths = []
             for p in ps:
@@ -256,7 +258,7 @@ class Concretiser:
                             ren[comp] = (self.rnd.choice(KEY_VARIANTS) % comp)
                         q.append(ren[comp])
                 paths.append(q)
-            self.colmap[s] = dict(zip(["c1", "c2", "c3", "c4"], paths))
+            self.colmap[s] = dict(zip(self.cols, paths))
             self.abs_of[s] = {".".join(str(c) for c in p): c for c, p in self.colmap[s].items()}
         self.mult = 1
         self.period = None
@@ -334,12 +336,12 @@ class Concretiser:
                 ts = self.ts_for(s, tsc if (j == 0 or tsc in ("same", "none")) else "inc1")
                 if ts is not None:
                     ev["timestamp"] = ts
-                for c in ("c1", "c2", "c3", "c4"):
+                for c in self.cols:
                     k = kinds[c]
                     if k == "absent":
                         continue
                     put(ev, self.colmap[s][c], self.value(k, aid, j))
-                if self.profile == "big" and not self.big_done and kinds["c4"] == "str" and self.rnd.random() < 0.5:
+                if self.profile == "big" and not self.big_done and kinds.get("c4") == "str" and self.rnd.random() < 0.5:
                     # pad one string so that the document line is just below MAX_RECORD_SIZE
                     put(ev, self.colmap[s]["c4"], "")
                     base = len(dumps(ev).encode())
@@ -577,6 +579,29 @@ def behaviour_kind(beh):
     return acts
 
 
+def sparse_score(beh):
+    """max over the blocks of the final layout of: number of (column, record) places where a column first appears
+    at a record > 0 of the block (has to be back-filled) or is missing again after it appeared."""
+    kinds = beh["kinds"]
+    cl = {}
+    for st in beh["steps"]:
+        if st["act"]["a"] == "ingest":
+            for i in st["act"]["ids"]:
+                cl[i] = st["act"]["cls"]
+    best = 0
+    for obs in beh["steps"][-1]["obs"].values():
+        for sg in obs["lay"]:
+            for blk in sg["blocks"]:
+                seen, score = set(), 0
+                for n, i in enumerate(blk["ids"]):
+                    present = {c for c, k in kinds[cl[i]].items() if k != "absent"}
+                    if n > 0:
+                        score += len(present - seen) + len(seen - present)
+                    seen |= present
+                best = max(best, score)
+    return best
+
+
 def nontrivial(beh):
     acts = behaviour_kind(beh)
     return acts.count("ingest") >= 2 and ("rotate" in acts or "restart" in acts or acts.count("flush") >= 2)
@@ -615,6 +640,10 @@ def run(chk):
     cap = gen(chk, "Gen_LogStore_cap.cfg", "Gen_LogStore_cap")
     sim = gen(chk, "Gen_LogStore_rt_sim.cfg", "Gen_LogStore_rt_sim", simulate="num=%d" % (150 if quick else 1500), depth=12,
               seed=seed)
+    # several late-appearing / sparse columns per block (class table of 6 columns, 5 classes)
+    late = gen(chk, "Gen_LogStore_late.cfg", "Gen_LogStore_late")
+    late_sim = gen(chk, "Gen_LogStore_late_sim.cfg", "Gen_LogStore_late_sim", simulate="num=%d" % (120 if quick else 1200),
+                   depth=16, seed=seed)
     binary = vlib.build_driver()
 
     cases = []
@@ -622,6 +651,14 @@ def run(chk):
     def add(behs, n, profile, tag):
         for b in vlib.sample(behs, n, seed * 1000003 + len(cases)):
             cases.append({"beh": b, "seed": seed * 7919 + len(cases), "profile": profile, "idx": len(cases), "tag": tag})
+
+    def add_stratified(behs, n, tag):
+        """half of the sample from the histories whose blocks have the most late-appearing / disappearing columns
+        (sparse_score), the other half uniformly: coverage of the 'sparse and late-appearing columns' quantifier"""
+        ranked = sorted(behs, key=lambda b: -sparse_score(b))
+        top = [b for b in ranked if sparse_score(b) >= max(1, sparse_score(ranked[0]) - 1)] if ranked else []
+        add(top, n // 2, "plain", tag)
+        add(behs, n - n // 2, "plain", tag)
 
     interesting = [b for b in rt if nontrivial(b)]
     if quick:
@@ -632,6 +669,8 @@ def run(chk):
         add(interesting, 8, "big", "rt-big")
         add(interesting, 10, "card", "rt-card")
         add(cap, 2, "cap", "cap")
+        add_stratified(late, 40, "late")
+        add_stratified(late_sim, 30, "late-sim")
     else:
         add(rt, 1500, "plain", "rt")
         add(rt2, 700, "plain", "rt2")
@@ -641,6 +680,8 @@ def run(chk):
         add(interesting, 100, "card", "rt-card")
         add(sim, 30, "card", "sim-card")
         add(cap, 10, "cap", "cap")
+        add_stratified(late, 600, "late")
+        add_stratified(late_sim, 400, "late-sim")
     # the statement's un-relaxed case: numeric-looking strings next to numbers (fixed classes)
     def same_block(b):
         cl = {}
